@@ -262,9 +262,81 @@ def closures(chk, repo):
                f"self.{meth} = {meth}")
     chk.floor("R19.4", "specialised accessor closures", n, 4)
     tv = repo.cls(C + "TerminalVar")
-    ok = bool(find("instance.__dict__[self.name].set(instance, value)",
-                   tv.methods["__set__"])) and bool(find(
-        "instance.__dict__[self.name].get(instance)", tv.methods["__get__"]))
+    why = terminalvar_delegation(repo)
     chk.ob("R19.4", tv.qualname, "device variables delegate to the linked "
-           "PacketVar of that device instance", ok, tv.node,
-           "instance.__dict__[name]")
+           "PacketVar of that device instance", not why, tv.node,
+           "; ".join(why[:3]) or "abstract execution of __get__/__set__: a "
+           "plain value goes to the linked variable's set(instance, value), "
+           "a read comes from its get(instance), linking stores the "
+           "variable under the descriptor's name")
+
+
+def terminalvar_delegation(repo):
+    """TerminalVar.__get__/__set__ evaluated (sa/evalx.py) on an abstract
+    device instance, for every kind of value: returns the list of
+    deviations"""
+    tv = repo.cls(C + "TerminalVar")
+    pv = repo.cls(C + "PacketVar")
+    st = repo.cls(C + "Struct")
+    bad = []
+
+    def world():
+        calls = []
+
+        def rec(tag):
+            def f(*a, **k):
+                calls.append((tag, a))
+                return Opaque("result of " + tag)
+            return ("hook", f)
+        var = Obj(pv, {"get": rec("get"), "set": rec("set")})
+        return calls, var
+    ev = Evaluator(repo, tv.module, tv)
+    g, s_ = tv.methods["__get__"], tv.methods["__set__"]
+    me = Obj(tv, {"name": "x"})
+    try:
+        # read through a linked variable
+        calls, var = world()
+        inst = Obj(None, {"__dict__": {"x": var, "y": Obj(pv, {})}})
+        r = ev.call_function(g, [me, inst, Opaque("owner")], cls=tv)
+        if [c for c in calls if c[0] == "get"] != [("get", (inst,))] or \
+                not isinstance(r, Opaque) or r.label != "result of get" or \
+                len(calls) != 1:
+            bad.append(f"__get__ of a linked variable: calls {calls}, "
+                       f"returns {r!r}")
+        # write a plain value through a linked variable
+        for value in (5, 0, True, 2.5):
+            calls, var = world()
+            inst = Obj(None, {"__dict__": {"x": var, "y": Obj(pv, {})}})
+            ev.call_function(s_, [me, inst, value], cls=tv)
+            if calls != [("set", (inst, value))] or \
+                    inst.fields["__dict__"]["x"] is not var:
+                bad.append(f"__set__ of the plain value {value!r}: calls "
+                           f"{calls}")
+        # unlinked: reads as None
+        inst = Obj(None, {"__dict__": {}})
+        r = ev.call_function(g, [me, inst, Opaque("owner")], cls=tv)
+        if r is not None:
+            bad.append(f"__get__ of an unlinked variable returns {r!r}")
+        # class access
+        r = ev.call_function(g, [me, None, Opaque("owner")], cls=tv)
+        if r is not me:
+            bad.append("__get__ on the class does not return the descriptor")
+        # linking
+        calls, var = world()
+        inst = Obj(None, {"__dict__": {}})
+        ev.call_function(s_, [me, inst, var], cls=tv)
+        if inst.fields["__dict__"].get("x") is not var or calls:
+            bad.append("__set__ of a PacketVar does not link it under the "
+                       "descriptor's name")
+        sv = Obj(st, {})
+        inst = Obj(None, {"__dict__": {}})
+        ev.call_function(s_, [me, inst, sv], cls=tv)
+        if inst.fields["__dict__"].get("x") is not sv or \
+                sv.fields.get("device") is not inst:
+            bad.append("__set__ of a Struct does not link it to the device")
+        r = ev.call_function(g, [me, inst, Opaque("owner")], cls=tv)
+        if r is not sv:
+            bad.append("__get__ of a linked Struct does not return it")
+    except (Unknown, Raised) as e:
+        raise AnalysisError(f"R19.4: TerminalVar cannot be evaluated: {e}")
+    return bad
